@@ -83,7 +83,7 @@ func straceOp(op, dir, mid string) ([]string, error) {
 		}
 		return r
 	}
-	fds := map[string]string{} // fd -> relative path (opened for writing)
+	fds := map[string]string{}     // fd -> relative path (opened for writing)
 	pending := map[string]string{} // pid -> fd of an unfinished write
 	var calls []string
 	for _, line := range strings.Split(string(data), "\n") {
